@@ -121,6 +121,46 @@ pub fn gen_timed(t: &mut Tape, want_window: bool) -> Scenario {
         let repl = if g.t.draw(4) == 0 { Repl::One } else { Repl::Unlimited };
         gen_scripted_source(&mut g, &o, repl);
     }
+    if g.t.draw(4) == 3 {
+        // timestamped stream inside a replay body: the frontier must restart in every round
+        let open = g.open();
+        let i = open[g.t.draw(open.len() as u32) as usize];
+        let i = g.unlimited(i);
+        let mut body = vec![];
+        let mut cur = 0usize;
+        for _ in 0..1 + g.t.draw(3) {
+            let op = match g.t.draw(5) {
+                0 | 1 => UnOp::Shuffle,
+                2 => UnOp::Gb(GbForm::KeyedMap, AggFn::Sum),
+                3 => UnOp::Map(MapFn::Add(1)),
+                _ => UnOp::Batch(gen_bm(g.t, true)),
+            };
+            body.push(Step::Un(cur, op));
+            cur += 1;
+        }
+        body.push(Step::Un(cur, UnOp::DropTs));
+        cur += 1;
+        let a = g.attrs[i].take().unwrap();
+        let spec = LoopSpec {
+            iterate: false,
+            rounds: 2 + g.t.draw(2) as usize,
+            stop_mod: 0,
+            stop_rem: 0,
+            agg: AggFn::Sum,
+            body,
+            body_out: cur,
+            use_state: false,
+            cond_sleep_us: [0u64, 100, 30_000][g.t.draw(3) as usize],
+        };
+        g.steps.push(Step::Loop(i, spec));
+        g.attrs.push(Some(Attr {
+            repl: Repl::One,
+            depth: a.depth,
+            len: 1,
+            keys: 1,
+        }));
+        return g.finish();
+    }
     let nsteps = 1 + g.t.draw(5) as usize;
     for _ in 0..nsteps {
         let open = g.open();
